@@ -962,6 +962,10 @@ impl Family for C03c {
         gen_case(rng, idx).render()
     }
 
+    fn realtime(case: &str) -> bool {
+        Case::parse(case).flavor != 0
+    }
+
     fn run(case_line: &str) -> Outcome {
         let case = Case::parse(case_line);
         stat(if case.flavor == 0 { "runtime current_thread paused" } else { "runtime multi_thread" });
